@@ -1708,8 +1708,16 @@ namespace
   std::pair <find_attribute_result, std::unique_ptr <value_die>>
   find_attribute (Dwarf_Die die, int atname, doneness d,
 		  Dwarf_Attribute *ret_at,
-		  std::shared_ptr <dwfl_context> dwctx)
+		  std::shared_ptr <dwfl_context> dwctx,
+		  unsigned depth = 0)
   {
+    // A DIE of a malformed file can name itself (or an ancestor in the
+    // chain) as its own specification.  libdw gives up after 16 levels.
+    if (depth > 16)
+      throw std::runtime_error
+	("invalid DWARF: DW_AT_specification/DW_AT_abstract_origin chain "
+	 "too deep");
+
     if (dwarf_hasattr (&die, atname))
       {
 	if (ret_at != nullptr)
@@ -1728,7 +1736,7 @@ namespace
 		Dwarf_Attribute at = dwpp_attr (die, atname2);
 		Dwarf_Die integrated_die = dwpp_formref_die (at);
 		auto ret = find_attribute (integrated_die, atname, d,
-					   ret_at, nullptr);
+					   ret_at, nullptr, depth + 1);
 
 		// If this call found anything, translate from found
 		// to found_integrated and create the accompanying
